@@ -1,3 +1,4 @@
+import re
 import pyparsing as pp
 from abc import ABC, abstractmethod
 from typing import Any
@@ -28,6 +29,10 @@ class Parser(ABC):
     def parse(self, program: str, state: Any, **kwargs):
         ...
 
+    # A line ends at "\n", "\r\n" or "\r" only. str.splitlines() would also break a line at form feeds, vertical tabs,
+    # U+2028 and similar characters inside comments and strings.
+    _LINE_END = re.compile(r"\r\n|\r|\n")
+
     def _sanitize(self) -> None:
         """Removes leading/trailing whitespace, empty lines, comments from self.program.\n
         Gives each line a line number (starting at 1).\n
@@ -36,7 +41,7 @@ class Parser(ABC):
         # remove empty lines, lines that only contain white space and comment lines. Enumerate all lines before removing lines.
         self.sanitized_program = [
             (index + 1, line)
-            for index, line in enumerate(self.program.splitlines())
+            for index, line in enumerate(self._LINE_END.split(self.program))
             if line.strip() and not line.strip().startswith("#")
         ]
         # remove comments from lines that also contain an instruction and strip the line
